@@ -45,7 +45,7 @@ def run_case(ctx, rep, case, base, model_ok):
     if not case["start_empty"]:
         t0.append_records(tablekit.rows(2, tag="init"))
     store = reader.DirStore(path)
-    chooser = case["chooser"](rng) if case.get("chooser") else sched.random_chooser(rng, 0.5)
+    chooser = case["chooser"](rng) if case.get("chooser") else sched.random_chooser(rng, rng.choice([0.0, 0.2, 0.5]))
     S = sched.Sched(chooser, watchdog_s=40)
     actors = {}
     readers = {}
